@@ -47,6 +47,8 @@ REQUIRED = [
     "mixed_families",
     "cancel_in_flight",
     "enclosing_timeout_runs",
+    "client_closed_during_race",
+    "client_waiter_cancelled_during_race",
 ]
 EXHAUSTIVE = {"quick": True, "thorough": True}
 WATCHDOG = {"quick": 900, "thorough": 7200}
@@ -248,6 +250,145 @@ def run_case(fams: list[int], outcomes: list, delay: float, local: str, spec: tu
     return res
 
 
+def run_client_case(outcomes: list, delay: float, action: str, k: int, slot: str) -> dict:
+    """AsyncTCPNetworkClient((host, port)) over the same scripted race (IPv4 only, attempts scripted 'ok' really connect to a loopback
+    listener). While wait_connected() is pending, at iteration k, either the client is closed from another task (aclose(), the client's
+    way of cancelling its connect) or the waiting task is cancelled. Census before any further clean-up: unless wait_connected() had
+    already returned the connected client, every socket created by the race is closed and wait_connected() did not return normally."""
+    from easynetwork.clients.async_tcp import AsyncTCPNetworkClient
+    from easynetwork.exceptions import ClientClosedError
+    from easynetwork.protocol import StreamProtocol
+    from easynetwork.serializers import StringLineSerializer
+
+    _patch_scope_monitor()
+    infos = addr_list([4] * len(outcomes))
+    script = {info[4][0]: oc for info, oc in zip(infos, outcomes)}
+    census = Census()
+    res: dict[str, Any] = {}
+    lst = socket.socket()
+    lst.bind(("127.0.0.1", 0))
+    lst.listen(16)
+    lst.setblocking(False)
+    accepted: list = []
+
+    class ConnectingResolver(ScriptedResolver):
+        async def connect_socket(self, sock, address) -> None:
+            await super().connect_socket(sock, address)
+            await asyncio.get_running_loop().sock_connect(sock, lst.getsockname())
+
+    async def main(loop):
+        resolver = ConnectingResolver(script)
+
+        class RaceBackend(AsyncIOBackend):
+            async def create_tcp_connection(self, host, port, *, local_address=None, happy_eyeballs_delay=None):
+                sock = await resolver._staggered_race_connection_impl(self, remote_addrinfo=infos, local_addrinfo=None, happy_eyeballs_delay=delay)
+                return await self.wrap_stream_socket(sock)
+
+        backend = RaceBackend()
+        old = _dr._socket
+        _dr._socket = _SockModShim(make_tracking(census))  # type: ignore[assignment]
+        try:
+            client = AsyncTCPNetworkClient(("racing.test", 80), StreamProtocol(StringLineSerializer()), backend)
+
+            async def waiter():
+                res["it_start"] = loop.iteration
+                try:
+                    await client.wait_connected()
+                    res["wc"] = "ok"
+                    res["wc_it"] = loop.iteration
+                except ClientClosedError:
+                    res["wc"] = "ClientClosedError"
+                except asyncio.CancelledError:
+                    res["wc"] = "cancelled"
+                    raise
+                except BaseException as exc:  # noqa: BLE001
+                    res["wc"] = f"raised:{type(exc).__name__}"
+                finally:
+                    res["it_end"] = loop.iteration
+
+            task = asyncio.ensure_future(waiter())
+            k0 = loop.iteration + 1
+            closer: list = []
+
+            def fire():
+                if task.done():
+                    return
+                res["fire_it"] = loop.iteration
+                res["in_flight_at_fire"] = resolver.in_flight
+                if action == "aclose":
+                    async def do_close():
+                        await client.aclose()
+                        res["aclose_returned_it"] = loop.iteration
+                    closer.append(asyncio.ensure_future(do_close()))
+                else:
+                    task.cancel()
+
+            if action != "none":
+                (loop.before_io if slot == "before" else loop.after_io)(k0 + k, fire)
+            done, pending = await asyncio.wait([task], timeout=500)
+            if pending:
+                res["wc"] = "hung"
+                task.cancel()
+            await asyncio.gather(task, *closer, return_exceptions=True)
+            for _ in range(6):
+                await asyncio.sleep(0)
+            # census before any further clean-up
+            res["open_before_cleanup"] = sum(1 for sck in census.created if sck.fileno() != -1)
+            res["created"] = len(census.created)
+            res["is_closing"] = client.is_closing()
+            res["K"] = res.get("it_end", loop.iteration) - res.get("it_start", k0)
+            await client.aclose()
+            for _ in range(6):
+                await asyncio.sleep(0)
+            res["open_after_close"] = sum(1 for sck in census.created if sck.fileno() != -1)
+        finally:
+            _dr._socket = old
+
+    try:
+        vloop.run(main)
+    except vloop.Quiescent as exc:
+        res["wc"] = f"deadlock: {exc}"
+    for sck in census.created:
+        try:
+            sck.close()
+        except OSError:
+            pass
+    try:
+        while True:
+            accepted.append(lst.accept()[0])
+    except OSError:
+        pass
+    for a in accepted:
+        a.close()
+    lst.close()
+    res["scope_cancel_near_fire"] = "fire_it" in res and any(abs(i - res["fire_it"]) <= 1 for i in _SCOPE_CANCELS)
+    return res
+
+
+def decide_client(outcomes, delay, action, res) -> str | None:
+    wc = res.get("wc", "?")
+    fired = "fire_it" in res
+    if wc == "hung" or wc.startswith("deadlock"):
+        if not fired and any(o[0] == "hang" for o in outcomes):
+            return None  # nobody interrupted a connect that cannot finish
+        if fired and action == "task-cancel" and res.get("scope_cancel_near_fire"):
+            return "KNOWN-MECHANISM cancel lost: task.cancel() landed in the loop iteration in which a stagger scope cancelled itself (see C13)"
+        return f"wait_connected() never returned ({wc}) although the connect was interrupted by {action}" if fired else f"wait_connected() never returned ({wc})"
+    if fired and action == "aclose":
+        # wait_connected() may legitimately have finished its work just before aclose() acted (connected, then closed); what may
+        # not happen is a client that is still connected, or a race that is still running, once aclose() has returned
+        if not res.get("is_closing"):
+            return f"aclose() was called while the connect was in progress (iteration {res['fire_it']}) and returned, but the client is not closed afterwards (wait_connected() ended '{wc}', {res.get('open_before_cleanup')} socket(s) open)"
+    if not (wc == "ok" and not (fired and action == "aclose")):
+        if res.get("open_before_cleanup", 0) != 0:
+            return f"wait_connected() ended '{wc}' ({action if fired else 'no interruption'}) but {res['open_before_cleanup']} of {res['created']} sockets created by the race are still open"
+    elif res.get("open_before_cleanup", 0) != 1:
+        return f"connected client but {res.get('open_before_cleanup')} sockets of {res.get('created')} are open (must be exactly the client's)"
+    if res.get("open_after_close", 0) != 0:
+        return f"{res['open_after_close']} sockets still open after the client was closed"
+    return None
+
+
 def decide(fams, outcomes, delay, local, spec, res) -> str | None:
     oc = res.get("outcome", "?")
     if oc.startswith("deadlock") or oc == "hung":
@@ -321,7 +462,7 @@ def plan(tier: str, seed: int) -> list[dict]:
             vectors.append(list(ocs))
     per = len(vectors) // 15 + 1
     for i in range(0, len(vectors), per):
-        shards.append({"seed": seed, "vectors": vectors[i : i + per], "random": 0})
+        shards.append({"seed": seed, "vectors": vectors[i : i + per], "random": 0, "tier": tier})
     if tier == "quick":
         shards.append({"seed": seed, "vectors": [], "random": 150})
     else:
@@ -351,6 +492,21 @@ def run_shard(params: dict, ctx) -> None:
                     _one(ctx, fams, outcomes, delay, "none", spec, run_case(fams, outcomes, delay, "none", spec))
             spec = ("timeout", rng.choice([0, 0.25, 0.5, 1.0]))
             _one(ctx, fams, outcomes, delay, "none", spec, run_case(fams, outcomes, delay, "none", spec))
+    # client level: AsyncTCPNetworkClient closed / cancelled while its connect is racing
+    for vec in params["vectors"]:
+        if len(vec) > 2 and params.get("tier") != "thorough":
+            continue
+        outcomes = [OUTCOMES[i] for i in vec]
+        for delay in DELAYS:
+            if ctx.should_stop(100):
+                return
+            base = run_client_case(outcomes, delay, "none", 0, "before")
+            _one_client(ctx, outcomes, delay, "none", 0, "before", base)
+            K = 8 if base.get("wc") in ("hung",) or str(base.get("wc", "")).startswith("deadlock") else min(base.get("K", 4), 14)
+            for action in ("aclose", "task-cancel"):
+                for k in range(0, K + 2):
+                    for slot in ("before", "after"):
+                        _one_client(ctx, outcomes, delay, action, k, slot, run_client_case(outcomes, delay, action, k, slot))
     for i in range(params["random"]):
         n = rng.randint(2, 5)
         outcomes = [rng.choice(OUTCOMES) for _ in range(n)]
@@ -360,6 +516,23 @@ def run_shard(params: dict, ctx) -> None:
         spec = rng.choice([None, ("task", rng.randint(0, 12), rng.choice(["before", "after"])), ("timeout", rng.choice([0, 0.25, 1.0]))])
         _one(ctx, fams, outcomes, delay, local, spec, run_case(fams, outcomes, delay, local, spec))
     ctx.sample({"families": [4, 6, 4], "outcomes": [list(OUTCOMES[0]), list(OUTCOMES[3]), list(OUTCOMES[5])], "happy_eyeballs_delay": 0.25, "cancel": "task.cancel at iteration k=0..K+1, before/after I/O; enclosing timeout"})
+
+
+def _one_client(ctx, outcomes, delay, action, k, slot, res) -> None:
+    ctx.count("client_level_cases")
+    fired = "fire_it" in res
+    if fired and action == "aclose":
+        ctx.count("client_closed_during_race")
+    if fired and action == "task-cancel":
+        ctx.count("client_waiter_cancelled_during_race")
+    ctx.case(fired and res.get("in_flight_at_fire", 0) > 0, "client", tuple(outcomes), delay, action, k, slot)
+    why = decide_client(outcomes, delay, action, res)
+    if why:
+        if why.startswith("KNOWN-MECHANISM"):
+            key = "cancel-lost-coincident-with-stagger-scope-cancel"
+        else:
+            key = f"client-{'leak' if 'open' in why else 'hang' if 'never returned' in why else 'state'}:{action}"
+        ctx.violation(key, f"[client] outcomes={outcomes} delay={delay} {action}@{k}/{slot}: {why}", {"client": True, "outcomes": [list(o) for o in outcomes], "delay": "inf" if delay == math.inf else delay, "action": action, "k": k, "slot": slot})
 
 
 def _one(ctx, fams, outcomes, delay, local, spec, res) -> None:
@@ -373,6 +546,10 @@ def _one(ctx, fams, outcomes, delay, local, spec, res) -> None:
 
 def replay(witness: dict, ctx) -> None:
     delay = math.inf if witness["delay"] == "inf" else witness["delay"]
+    if witness.get("client"):
+        outcomes = [tuple(o) for o in witness["outcomes"]]
+        _one_client(ctx, outcomes, delay, witness["action"], witness["k"], witness["slot"], run_client_case(outcomes, delay, witness["action"], witness["k"], witness["slot"]))
+        return
     outcomes = [tuple(o) for o in witness["outcomes"]]
     spec = tuple(witness["spec"]) if witness["spec"] else None
     res = run_case(witness["fams"], outcomes, delay, witness["local"], spec)
